@@ -1,6 +1,7 @@
 package main
 
 import (
+	"sort"
 	"fmt"
 	"go/token"
 	"go/types"
@@ -768,4 +769,113 @@ func runInferThroughNames(p *Program, r *RuleResult) {
 		}
 	}
 	r.count("inference implementations that follow names", n)
+}
+
+// R-VISIT-ONCE (C11): a recursion over the type definitions that carries a visited set
+// explores every definition once, not once per path.
+func init() {
+	register(&Rule{Name: "R-VISIT-ONCE", Min: 2,
+		Doc: "in the recursive traversals of package types that carry a visited set (a map[string]bool parameter handed from call to call, the functions reached from the parser's expansion included), every recursive call of the same family passes on the visited set it received, not a copy of it: with a copy per branch, a definition referred to from two branches is traversed again for each, so n chained definitions with two references each take 2^n steps – `type A0 = +{a : A1, b : A1} … type A20 = 1` (600 bytes) keeps parser.ParseString busy for ten seconds, four more definitions for minutes",
+		Run: runVisitOnce})
+}
+
+func runVisitOnce(p *Program, r *RuleResult) {
+	n := 0
+	var fns []*ssa.Function
+	for _, fn := range p.SrcFuncs {
+		if fn.Pkg != nil && fn.Pkg.Pkg.Path() == typesPkg && fn.Blocks != nil && fn.Parent() == nil {
+			fns = append(fns, fn)
+		}
+	}
+	sort.Slice(fns, func(i, j int) bool { return fnName(fns[i]) < fnName(fns[j]) })
+	type famT struct {
+		copies []string // positions of recursive calls that receive a copy
+		shared int
+		memo   bool // the name-following member consults a table of finished results
+		pos    string
+	}
+	fams := map[string]*famT{}
+	var order []string
+	for _, fn := range fns {
+		var visited *ssa.Parameter
+		for _, prm := range fn.Params {
+			if isMapStringBool(prm.Type()) {
+				visited = prm
+			}
+		}
+		if visited == nil {
+			continue
+		}
+		fam := fams[fn.Name()]
+		for _, c := range p.callsIn(fn) {
+			com := c.Common()
+			sameFamily := false
+			if com.IsInvoke() && com.Method.Name() == fn.Name() {
+				sameFamily = true
+			}
+			if sc := com.StaticCallee(); sc != nil && sc.Name() == fn.Name() && sc.Pkg == fn.Pkg {
+				sameFamily = true
+			}
+			if !sameFamily {
+				continue
+			}
+			var arg ssa.Value
+			for _, a := range com.Args {
+				if isMapStringBool(a.Type()) {
+					arg = a
+				}
+			}
+			if arg == nil {
+				continue
+			}
+			if fam == nil {
+				fam = &famT{pos: p.pos(fn.Pos())}
+				fams[fn.Name()] = fam
+				order = append(order, fn.Name())
+			}
+			n++
+			if origin(arg) == ssa.Value(visited) {
+				fam.shared++
+			} else {
+				fam.copies = append(fam.copies, fnName(fn)+" at "+p.instrPos(c))
+			}
+		}
+		// a table of finished results: a lookup in a map that is neither the definition
+		// environment nor the visited set, in a member that follows a name
+		followsEnv := false
+		for _, b := range fn.Blocks {
+			for _, in := range b.Instrs {
+				if lk, ok := in.(*ssa.Lookup); ok && isNamed(lk.X.Type(), typesPkg, "LabelledTypesEnv") {
+					followsEnv = true
+				}
+			}
+		}
+		if followsEnv && fam != nil {
+			for _, b := range fn.Blocks {
+				for _, in := range b.Instrs {
+					lk, ok := in.(*ssa.Lookup)
+					if !ok || isNamed(lk.X.Type(), typesPkg, "LabelledTypesEnv") || origin(lk.X) == ssa.Value(visited) {
+						continue
+					}
+					if _, isMap := lk.X.Type().Underlying().(*types.Map); isMap {
+						fam.memo = true
+					}
+				}
+			}
+		}
+	}
+	for _, name := range order {
+		fam := fams[name]
+		construct := "each-definition-once"
+		switch {
+		case len(fam.copies) == 0:
+			r.add("types "+name+" family", construct, Holds, fam.pos, fmt.Sprintf("all %d recursive calls hand on the visited set they received", fam.shared))
+		case fam.memo:
+			r.add("types "+name+" family", construct, Holds, fam.pos, "branches get their own visited set, and finished definitions are taken from a table")
+		default:
+			r.add("types "+name+" family", construct, Violated, fam.pos,
+				fmt.Sprintf("%d recursive call(s) receive a copy of the visited set (%s) and nothing records finished definitions: what one branch visits is forgotten when the next starts, so a definition shared by several branches is traversed once per path – exponential in the depth of the definitions", len(fam.copies), strings.Join(fam.copies, "; ")))
+		}
+	}
+	r.count("recursive calls carrying a visited set", n)
 }
